@@ -83,8 +83,7 @@ class FlowGen:
             return [ind + '%s = %s' % (v, self.value(v))]
         if r < 0.44 and v not in self.closure_ok:
             self.feat.add('del')
-            if rng.random() < 0.5:
-                return [ind + 'del %s' % v]
+            # always guarded, so that an unguarded UnboundLocalError is known to come from a read
             return [ind + 'try:', ind + '    del %s' % v, ind + 'except NameError as e_:',
                     ind + "    log(('del', type(e_).__name__))"]
         if r < 0.52 and self.profile[v] == 'obj':
@@ -208,12 +207,14 @@ class FlowGen:
         if k == 'match':
             self.feat.add('match')
             v = self.var()
+            self.stack.append('match')
             out = [ind + 'match %s:' % self.bit(), i2 + 'case 0:'] + self.block(i2 + '    ', depth + 1, 1, 2)
-            if self.profile[v] == 'obj' and rng.random() < 0.5:
+            if self.profile[v] == 'obj' and v not in self.closure_ok and rng.random() < 0.5:
                 self.feat.add('match-capture')
                 out += [i2 + 'case %s:' % v] + self.block(i2 + '    ', depth + 1, 1, 2)
             else:
                 out += [i2 + 'case _:'] + self.block(i2 + '    ', depth + 1, 1, 2)
+            self.stack.pop()
             return out
         if k == 'comp':
             self.feat.add('comprehension')
@@ -221,7 +222,8 @@ class FlowGen:
             return [ind + 'log([(%s, j_) for j_ in range(2)])' % v]
         if k == 'inner':
             v = self.var()
-            if v not in self.closure_ok:
+            # (no inner functions inside 'match' blocks: the compiler emits C that does not build for those - C43's domain)
+            if v not in self.closure_ok or 'match' in self.stack:
                 return self.leaf(ind)
             self.closure_vars.add(v)
             n = self.newid()
@@ -265,7 +267,7 @@ def gen_function(rng, name):
     for _ in range(30):
         fg = FlowGen(rng, name, nvars=rng.randint(2, 4), max_depth=rng.randint(2, 4))
         src = fg.function()
-        if len(src.splitlines()) > 120:
+        if len(src.splitlines()) > 80:
             continue
         try:
             compile(src, name, 'exec')
